@@ -916,18 +916,18 @@ class Terminal:
                         MBXType.COE, "HBHB4x", CoECmd.SDOREQ.value << 12,
                         ODCmd.SEG_UP_REQ.value + toggle, index,
                         1 if subindex is None else subindex)
-                type, data = await self.mbx_recv()
-                if type is not MBXType.COE:
-                    raise EtherCatError(f"expected CoE, got {type}")
+                type = None
+                while type is not MBXType.COE:
+                    type, data = await self.mbx_recv()
                 coecmd, sdocmd = unpack("<HB", data[:3])
                 if coecmd >> 12 != CoECmd.SDORES.value:
                     raise EtherCatError(
                         f"expected CoE cmd SDORES, got {coecmd}")
                 if sdocmd & 0xe0 != 0:
                     raise EtherCatError(f"requested index {index}, got {idx}")
-                if sdocmd & 1 and len(data) == 7:
-                    data = data[:3 + (sdocmd >> 1) & 7]
-                ret += data[3:]
+                if len(data) == 10:
+                    data = data[:10 - ((sdocmd >> 1) & 7)]
+                ret.append(data[3:])
                 retsize += len(data) - 3
                 if sdocmd & 1:
                     break
